@@ -113,8 +113,10 @@ def _check_sig(R, repo, rel, cn, method, spec):
     for e, al in (exp.get('alts') or {}).items():
         for a in al:
             alt_back[a] = e
-    fseq = [alt_back.get(t, t) for t in found if not t.startswith(('RETURN', 'CALL'))]
-    eseq = [t for t in exp['lines'] if not t.startswith(('RETURN', 'CALL'))]
+    from ..sig import _canon_guard
+    canon_alt = {_canon_guard(k): _canon_guard(v) for k, v in alt_back.items()}
+    fseq = [canon_alt.get(_canon_guard(t), _canon_guard(t)) for t in found if not t.startswith(('RETURN', 'CALL'))]
+    eseq = [_canon_guard(t) for t in exp['lines'] if not t.startswith(('RETURN', 'CALL'))]
     df, de = _deps(fseq), _deps(eseq)
     if df != de:
         R.bad(f'{key} :: data-dependency order', w, expected=sorted(de - df)[:4], found=sorted(df - de)[:4])
@@ -266,6 +268,8 @@ def r6(ctx, R):
     R.fn(w)
     N = Normalizer(fn, inline_scalars=False)
     k = fn.args.args[1].arg if len(fn.args.args) > 1 else 'k'
+    rebound = [ast.unparse(s_) for s_ in ast.walk(fn) if isinstance(s_, (ast.Assign, ast.AugAssign, ast.AnnAssign)) and any(isinstance(t, ast.Name) and t.id == k for t in (s_.targets if isinstance(s_, ast.Assign) else [s_.target]))]
+    R.check(not rebound, f'Sweeper.updateVariableCoeffs :: the sweep index handed to the generators is the one the controller passed in (not clamped or shifted)', w, f'no assignment to {k}', rebound)
     for attr, getter, gen in (('QI', 'get_Qdelta_implicit', 'genQI'), ('QE', 'get_Qdelta_explicit', 'genQE')):
         cs = [c for c in N.contribs if c.target == f'self.{attr}' and c.call and c.call[0] == f'self.{getter}']
         ok = len(cs) == 1 and cs[0].call[2].get('k') == k and any(f'self.{gen}.isKDependent()' in g for g in cs[0].guards)
